@@ -45,15 +45,15 @@ def build(m):
     m.add(Contract(MOD + ':succeeded_by', [('end', INT), ('string', STR), ('charset', CHARSET)], returns=BOOL,
                    inline=True, requires=['0 <= end'], prop=P))
     m.add(Contract(MOD + ':is_left_delimiter', [('start', INT), ('end', INT), ('string', STR)], returns=BOOL, pure=True,
-                   requires=RANGE, ensures=['result == SPEC_LEFT(PREV(start, string), NEXT(end, string))'], prop=P))
+                   requires=RANGE, ensures=['result == SPEC_LEFT(PREV(start, string), NEXT(end, string))'], prop=P + ['C14']))
     m.add(Contract(MOD + ':is_right_delimiter', [('start', INT), ('end', INT), ('string', STR)], returns=BOOL, pure=True,
-                   requires=RANGE, ensures=['result == SPEC_RIGHT(PREV(start, string), NEXT(end, string))'], prop=P))
+                   requires=RANGE, ensures=['result == SPEC_RIGHT(PREV(start, string), NEXT(end, string))'], prop=P + ['C14']))
     m.add(Contract(MOD + ':is_opener', [('start', INT), ('end', INT), ('string', STR)], returns=BOOL, pure=True,
                    requires=RANGE + ["string[start] == '*' or string[start] == '_'"],
-                   ensures=['result == SPEC_CAN_OPEN(string[start], PREV(start, string), NEXT(end, string))'], prop=P))
+                   ensures=['result == SPEC_CAN_OPEN(string[start], PREV(start, string), NEXT(end, string))'], prop=P + ['C14']))
     m.add(Contract(MOD + ':is_closer', [('start', INT), ('end', INT), ('string', STR)], returns=BOOL, pure=True,
                    requires=RANGE + ["string[start] == '*' or string[start] == '_'"],
-                   ensures=['result == SPEC_CAN_CLOSE(string[start], PREV(start, string), NEXT(end, string))'], prop=P))
+                   ensures=['result == SPEC_CAN_CLOSE(string[start], PREV(start, string), NEXT(end, string))'], prop=P + ['C14']))
 
     # ---- Delimiter ---------------------------------------------------------------------------
     m.predicate('DELIM_OK', ['d'], 'len(d.type) == d.number and d.number == d.end - d.start and d.number >= 1 and d.start >= 0')
